@@ -681,11 +681,11 @@ def parse_reader_file(T, mod, src, R):
         elif raw_fields and name in R.read_args:
             R.arg_records[(mod, name)] = {"pending": raw_fields}
     # tables
-    for m in re.finditer(r"impl\s+(\w+)Marker\s*\{", src):
-        name = m.group(1)
+    for m in re.finditer(r"impl(<T>)?\s+(\w+)Marker(?:<T>)?\s*\{", src):
+        name = m.group(2)
         end = balanced(src, m.end() - 1)
         try:
-            R.tables[(mod, name)] = parse_reader_table(T, mod, name, src, src[m.end():end - 1], R)
+            R.tables[(mod, name)] = parse_reader_table(T, mod, name, src, src[m.end():end - 1], R, generic=bool(m.group(1)))
         except NotCovered as e:
             R.tables[(mod, name)] = {"error": "reader: " + str(e)}
     # records read with arguments
@@ -751,7 +751,9 @@ def range_start_ok(e):
         return range_start_ok(mb.group(1) if mb else inner)
     return False
 
-def parse_reader_table(T, mod, name, src, marker_body, R):
+def parse_reader_table(T, mod, name, src, marker_body, R, generic=False):
+    # a generic table (`LookupList<'a, T>`): the type parameter only names the target of its offsets
+    G = r",\s*T" if generic else ""
     # 1. layout: the range fns in order
     layout = []
     for m in re.finditer(r"pub fn (\w+)_byte_range\(&self\)\s*->\s*(Option<Range<usize>>|Range<usize>)\s*\{", marker_body):
@@ -778,7 +780,7 @@ def parse_reader_table(T, mod, name, src, marker_body, R):
             raise NotCovered(f"range length of {fname}: {ln}")
     # 2. the read body
     args = []
-    m = re.search(r"impl<'a>\s*FontRead<'a>\s+for\s+%s<'a>\s*\{" % name, src)
+    m = re.search(r"impl<'a%s>\s*FontRead<'a>\s+for\s+%s<'a%s>\s*\{" % (G, name, G), src)
     if m:
         end = balanced(src, m.end() - 1)
         body = src[m.end():end]
@@ -896,7 +898,7 @@ def parse_reader_table(T, mod, name, src, marker_body, R):
         raise NotCovered(f"unconsumed read statement: {stmts[i][:100]}")
     # 3. getters: which fields are visible, and element type of arrays must agree
     getters = set()
-    for m in re.finditer(r"impl<'a>\s*%s<'a>\s*\{" % name, src):
+    for m in re.finditer(r"impl<'a%s>\s*%s<'a%s>\s*\{" % (G, name, G), src):
         e = balanced(src, m.end() - 1)
         for g in re.finditer(r"pub fn (\w+)\(&self\)\s*->\s*([^{]+)\{", src[m.end():e]):
             getters.add(g.group(1))
@@ -951,7 +953,7 @@ def parse_writer_file(T, mod, src):
         fo = None
         if rd:
             # the struct literal of `from_obj_ref`: `field: obj.getter(..)…`
-            mfo = re.search(r"FromObjRef<read_fonts::tables::\w+::\w+(?:<[^>]*>)?>\s+for\s+%s\s*\{" % name, src)
+            mfo = re.search(r"FromObjRef<read_fonts::tables::\w+::\w+(?:<[^>]*>)?>\s+for\s+%s(?:<T>)?\s*(?:where[^{]*)?\{" % name, src)
             e = balanced(src, mfo.end() - 1) if mfo else None
             ml = re.search(r"\b%s\s*\{" % name, src[mfo.end():e]) if mfo else None
             if ml:
@@ -1027,6 +1029,14 @@ def len_prefixed_shape(T, W, mod, rname):
         return None
     return (T.size(m1.group(1)), sh[1])
 
+# hand-written element types (inventoried by translate/handwritten_write.py; exercised by the value-level oracle)
+HAND_ELEMS = {
+    "PString": " (hand-written in write-fonts/src/tables/post.rs: the writer truncates the length with `as u8`, the hand-written reader rejects non-ASCII bytes, and the VarLenArray extends to the end of the data)",
+    "InstanceRecord": " (hand-written FontWrite / FontReadWithArgs / ComputeSize in {write,read}-fonts/src/tables/fvar.rs, instance_record.rs: size = the instance_size argument, optional trailing post_script_name_id)",
+    "DeviceRecord": " (hand-written in {write,read}-fonts/src/tables/hdmx.rs: size = the size_device_record field, padded widths)",
+    "VarSizeDummy": " (hand-written test type in codegen_test)",
+}
+
 def shape_concat(a, b, what):
     if a[0] == "fixed" and b[0] == "fixed":
         return ("fixed", a[1] + b[1], True)
@@ -1071,7 +1081,7 @@ def flat_shape(T, W, mod, ty, depth=0):
         raise NotCovered(f"field type {ty}")
     rec, rmod = find_writer_record(W, mod, ty)
     if rec is None:
-        raise NotCovered(f"element type {ty} has no generated writer")
+        raise NotCovered(f"element type {ty} has no generated writer" + HAND_ELEMS.get(ty, ""))
     out = ("fixed", [], True)
     for st in rec["stmts"]:
         mm = re.fullmatch(r"self\.(\w+)\.write_into\(writer\)", st)
@@ -1269,7 +1279,10 @@ ARG_BASE = 1000
 
 def build_pair(T, W, R, mod, name, wd, computed_ids):
     if wd["generic"]:
-        raise NotCovered("generic type")
+        # a type parameter may only name the target of an offset (`Vec<OffsetMarker<T>>`): the layout does not depend on it
+        for fn_, fty in wd["fields"].items():
+            if re.search(r"\bT\b", re.sub(r"OffsetMarker<T(?:,\w+)?>", "OffsetMarker<X>", fty)):
+                raise NotCovered(f"generic type: field {fn_} : {fty} depends on the type parameter")
     rkey = wd["reader"] or (mod, name)
     wst = parse_writer(T, W, mod, name, wd, computed_ids)
     # reader layout
